@@ -178,6 +178,7 @@ class Interp:
         self.insert_obligations = []   # (guard-relative, term) not used for memoised bodies; see models
         self.depth = 0
         self.max_depth = self.cfg.get('max_depth', 600)
+        self.call_stack = []
         self.hooks = {}           # name -> python callable overriding a crate function (harness stubs)
 
     # --------------------------------------------------------------------------------------- utilities
@@ -965,10 +966,12 @@ class Interp:
         if self.depth > self.max_depth:
             raise EngineError('call depth bound exceeded in ' + item.last)
         self.depth += 1
+        self.call_stack.append((item.last, args))
         try:
             return self._exec_body(item, args, mem)
         finally:
             self.depth -= 1
+            self.call_stack.pop()
 
     def _exec_body(self, item, args, mem):
         fr0 = Frame(item, mem)
@@ -1178,7 +1181,8 @@ class Interp:
             it = self.by_closure.get(f.cid)
             if it is None:
                 raise EngineError('no body for ' + f.cid)
-            return self.call_item(it, [mk_sref(f)] + list(args), fr.mem)
+            selfarg = mk_sref(f) if it.arg_types[0].lstrip().startswith('&') else f
+            return self.call_item(it, [selfarg] + list(args), fr.mem)
         if callable(f):
             return self.wrap_model_result(f(self, fr, args), fr)
         raise EngineError('call of %s' % type(f).__name__)
@@ -1297,7 +1301,7 @@ class Interp:
         return out
 
     def wrap_model_result(self, r, fr):
-        if isinstance(r, Outs):
+        if isinstance(r, list) and (not r or isinstance(r[0], Outcome)):
             for o in r:
                 if o.kind == 'ret' and o.mem is None:
                     o.mem = fr.mem
@@ -1347,7 +1351,10 @@ class Interp:
         hook = self.hooks.get(item.last)
         if hook is not None:
             fr = Frame(item, mem)
-            return self.wrap_model_result(hook(self, fr, args), fr)
+            r = hook(self, fr, args)
+            if r is not NotImplemented:
+                self.stats['summarised'] = self.stats.get('summarised', 0) + 1
+                return self.wrap_model_result(r, fr)
         roots = EMPTY
         for a in args:
             c = cells_of(a)
